@@ -161,7 +161,7 @@ def run_cfg(args):
                 t.fail("C13|%s|rejects-a-history-without-visible-fault" % cname, dict(case, err=str(e)[:200]))
                 continue
             first = next(i for i, fk in enumerate(pattern) if any(us[w] and zeroes(fk, w) for w in ("acc", "mag", "gyr")))
-            events = [{"outcome": "Ok", "close": True} for _ in range(first)] + [{"outcome": "Rejected", "close": False}]
+            events = [{"outcome": "Ok", "close": True, "held": True} for _ in range(first)] + [{"outcome": "Rejected", "close": False, "held": True}]
             t.traces.append({"cfg": cname, "pattern": pattern, "uses_acc": us["acc"], "uses_mag": us["mag"], "uses_gyr": us["gyr"], "events": events})
             continue
         except Exception as e:  # noqa
@@ -177,10 +177,15 @@ def run_cfg(args):
             ok = np.all(np.isfinite(rows)) and np.max(np.abs(np.linalg.norm(rows, axis=1) - 1.0)) <= 1e-9
             if not ok:
                 poisoned_at = i
-                events.append({"outcome": "Poisoned", "close": False})
+                events.append({"outcome": "Poisoned", "close": False, "held": False})
                 break
-            close = angle(rows[-1], ref[(i + 1) * SLOT - 1]) <= tol
-            events.append({"outcome": "Ok", "close": bool(close)})
+            ang_ = angle(rows[-1], ref[(i + 1) * SLOT - 1])
+            close = ang_ <= tol
+            # held: at the end of a faulted slot the run is where dead reckoning from its last estimate puts it (a body at rest: where it
+            # was, up to the drift the configured gyroscope bias allows over the samples zeroed so far); rotating histories are not judged
+            nz = (1 if thin else SLOT) * sum(1 for j in range(i + 1) if pattern[j] != "ok")
+            held = True if long_ else bool(ang_ <= 2.0 * tol + 1.5 * 1.15 * abs(bias_) * nz * 0.01 + 1e-3)
+            events.append({"outcome": "Ok", "close": bool(close), "held": held})
         if poisoned_at is not None:
             upto = set(pattern[:poisoned_at + 1]) - {"ok"}
             t.fail("C13|%s|%s|poisoned" % (cname, "+".join(sorted(upto)) or "none"), dict(case, route=route, slot=poisoned_at, rows=out[poisoned_at * SLOT:poisoned_at * SLOT + 3]))
@@ -190,6 +195,10 @@ def run_cfg(args):
         for i, ev in enumerate(events):
             vis = any(us[w] and zeroes(pattern[i], w) for w in ("acc", "mag", "gyr"))
             since = 0 if vis else since + 1
+            if vis and pattern[0] == "ok" and (i == 0 or events[i - 1]["close"]) and not ev["held"]:
+                t.fail("C13|%s|%s|correction-not-skipped-during-the-dropout" % (cname, "+".join(visible)),
+                       dict(case, slot=i, angle=angle(out[(i + 1) * SLOT - 1], ref[(i + 1) * SLOT - 1]), tol=tol, route=route))
+                break
             if since >= RECOVER and pattern[0] == "ok" and not ev["close"]:
                 t.fail("C13|%s|%s|not-recovered" % (cname, "+".join(visible) or "no-visible-fault"),
                        dict(case, slot=i, angle=angle(out[(i + 1) * SLOT - 1], ref[(i + 1) * SLOT - 1]), tol=tol))
